@@ -26,7 +26,7 @@ from .. import common as cm
 from ..translate import TranslationError, ExprTranslator, lit, strip_doc
 
 PROP = 'C11'
-GENERATED = ['VoigtTables', 'CrystalCij', 'IsoPairs']
+GENERATED = ['VoigtTables', 'CrystalCij', 'IsoPairs', 'AxesCheck']
 SRC = 'atomman/core/ElasticConstants.py'
 AXES_SRC = 'atomman/tools/axes_check.py'
 
@@ -546,6 +546,166 @@ def _default_of(src, fname, arg):
     return _num(a.defaults[k])
 
 
+# ---- tools/axes_check.py: the whole function as generated Lean ---------------------------------------------
+
+def _axes_check_gen(axes_src):
+    """`axes_check(axes, tol=lit)` read statement by statement with a small symbolic evaluator on 3x3 arrays whose
+    entries are Lean terms in `axes i j`, `norms i` (= `np.linalg.norm(axes, axis=1)[i]`, the one external numeric
+    routine) and `tol`:
+        np.asarray(x)                      -> x                (int -> float is the identity on the model's scalars)
+        x.T, x / y (numpy broadcasting), np.dot, np.cross, x[i], np.identity(3) / np.eye(3)
+        assert x.shape == (3, 3)
+        if not np.allclose(X, Y, atol=tol): raise E(...)      -> one test (E, atol is tol?, entry pairs of X, Y)
+        return x
+    Anything else — a conditional around the normalisation, a second return, a norm of something that is not the rows
+    of the argument, module-level state — is refused.  Emits Generated/AxesCheck.lean:
+    `axesCheckU` (row-major entries of the returned array), `axesCheckTests` (the tests in program order)."""
+    tree = ast.parse(axes_src)
+    fn = None
+    for n in tree.body:
+        if isinstance(n, (ast.Import, ast.ImportFrom)):
+            continue
+        if isinstance(n, ast.Expr) and isinstance(n.value, ast.Constant) and isinstance(n.value.value, str):
+            continue
+        if isinstance(n, ast.FunctionDef) and n.name == 'axes_check' and fn is None and not n.decorator_list:
+            fn = n
+            continue
+        raise TranslationError(f'axes_check.py: unexpected module-level statement `{ast.unparse(n)[:60]}`')
+    if fn is None:
+        raise TranslationError('axes_check not found')
+    a = fn.args
+    if [x.arg for x in a.args] != ['axes', 'tol'] or len(a.defaults) != 1 or a.vararg or a.kwarg or a.kwonlyargs \
+            or a.posonlyargs:
+        raise TranslationError('axes_check: unexpected signature')
+    tol_default = _num(a.defaults[0])
+    RAW = [[f'axes {i} {j}' for j in range(3)] for i in range(3)]
+    env = {'axes': ('mat', RAW), 'tol': ('tol',)}
+
+    def par(s):
+        return s if ' ' not in s else f'({s})'
+
+    def tr(m):
+        return [[m[j][i] for j in range(3)] for i in range(3)]
+
+    def ev(node):
+        if isinstance(node, ast.Name):
+            if node.id not in env:
+                raise TranslationError(f'axes_check: unknown name {node.id}')
+            return env[node.id]
+        if isinstance(node, ast.Attribute) and node.attr == 'T':
+            v = ev(node.value)
+            if v[0] != 'mat':
+                raise TranslationError('axes_check: .T of a non-matrix')
+            return ('mat', tr(v[1]))
+        if isinstance(node, ast.Subscript):
+            v = ev(node.value)
+            k = _int(node.slice)
+            if v[0] != 'mat' or not 0 <= k < 3:
+                raise TranslationError(f'axes_check: unsupported subscript `{ast.unparse(node)}`')
+            return ('vec', list(v[1][k]))
+        if isinstance(node, ast.BinOp) and isinstance(node.op, (ast.Div, ast.Mult, ast.Sub, ast.Add)):
+            op = {ast.Div: '/', ast.Mult: '*', ast.Sub: '-', ast.Add: '+'}[type(node.op)]
+            x, y = ev(node.left), ev(node.right)
+
+            def f(p, q):
+                return f'{par(p)} {op} {par(q)}'
+            if x[0] == 'mat' and y[0] == 'vec':      # broadcasting along the last axis
+                return ('mat', [[f(x[1][i][j], y[1][j]) for j in range(3)] for i in range(3)])
+            if x[0] == 'mat' and y[0] == 'mat':
+                return ('mat', [[f(x[1][i][j], y[1][i][j]) for j in range(3)] for i in range(3)])
+            if x[0] == 'vec' and y[0] == 'vec':
+                return ('vec', [f(x[1][i], y[1][i]) for i in range(3)])
+            raise TranslationError(f'axes_check: unsupported operands in `{ast.unparse(node)[:60]}`')
+        if isinstance(node, ast.Call):
+            fname = ast.unparse(node.func)
+            kw = {k.arg: k.value for k in node.keywords}
+            if fname == 'np.asarray' and len(node.args) == 1 and (not kw or (list(kw) == ['dtype'] and ast.unparse(
+                    kw['dtype']) in ("'float64'", 'float', 'np.float64'))):
+                v = ev(node.args[0])
+                if v[0] != 'mat':
+                    raise TranslationError('axes_check: np.asarray of a non-matrix')
+                return v
+            if fname == 'np.linalg.norm' and len(node.args) == 1 and list(kw) == ['axis']:
+                v = ev(node.args[0])
+                ax = _int(kw['axis'])
+                if v[0] == 'mat' and ((v[1] == RAW and ax in (1, -1)) or (v[1] == tr(RAW) and ax == 0)):
+                    return ('vec', [f'norms {i}' for i in range(3)])
+                raise TranslationError('axes_check: np.linalg.norm is not taken over the rows of the axes argument')
+            if fname == 'np.dot' and len(node.args) == 2 and not kw:
+                x, y = ev(node.args[0]), ev(node.args[1])
+                if x[0] == 'mat' and y[0] == 'mat':
+                    return ('mat', [[' + '.join(f'{par(x[1][i][k])} * {par(y[1][k][j])}' for k in range(3))
+                                     for j in range(3)] for i in range(3)])
+                raise TranslationError('axes_check: np.dot of non-matrices')
+            if fname in ('np.identity', 'np.eye') and len(node.args) == 1 and not kw and _int(node.args[0]) == 3:
+                return ('mat', [['((1 : Nat) : K)' if i == j else '((0 : Nat) : K)' for j in range(3)] for i in range(3)])
+            if fname == 'np.cross' and len(node.args) == 2 and not kw:
+                x, y = ev(node.args[0]), ev(node.args[1])
+                if x[0] == 'vec' and y[0] == 'vec':
+                    p, q = x[1], y[1]
+                    return ('vec', [f'{par(p[(i + 1) % 3])} * {par(q[(i + 2) % 3])} - {par(p[(i + 2) % 3])} * '
+                                    f'{par(q[(i + 1) % 3])}' for i in range(3)])
+                raise TranslationError('axes_check: np.cross of non-vectors')
+        raise TranslationError(f'axes_check: unsupported expression `{ast.unparse(node)[:70]}`')
+
+    tests, ret = [], None
+    for st in _body(fn):
+        if ret is not None:
+            raise TranslationError('axes_check: statements after return')
+        if isinstance(st, ast.Assign) and len(st.targets) == 1 and isinstance(st.targets[0], ast.Name):
+            if st.targets[0].id == 'tol':
+                raise TranslationError('axes_check: tol reassigned')
+            env[st.targets[0].id] = ev(st.value)
+            continue
+        if isinstance(st, ast.Assert):
+            t = st.test
+            if isinstance(t, ast.Compare) and len(t.ops) == 1 and isinstance(t.ops[0], ast.Eq) \
+                    and isinstance(t.left, ast.Attribute) and t.left.attr == 'shape' and ev(t.left.value)[0] == 'mat' \
+                    and ast.unparse(t.comparators[0]) == '(3, 3)':
+                continue
+            raise TranslationError(f'axes_check: unexpected assertion `{ast.unparse(st)[:70]}`')
+        if isinstance(st, ast.If) and not st.orelse and len(st.body) == 1 and isinstance(st.body[0], ast.Raise) \
+                and isinstance(st.test, ast.UnaryOp) and isinstance(st.test.op, ast.Not) \
+                and isinstance(st.test.operand, ast.Call) and ast.unparse(st.test.operand.func) == 'np.allclose':
+            c = st.test.operand
+            kw = {k.arg: k.value for k in c.keywords}
+            if len(c.args) != 2 or set(kw) - {'atol'}:
+                raise TranslationError(f'axes_check: unexpected allclose call `{ast.unparse(c)[:70]}`')
+            if 'atol' in kw and not (isinstance(kw['atol'], ast.Name) and env.get(kw['atol'].id) == ('tol',)):
+                raise TranslationError('axes_check: allclose atol is not the tol argument')
+            x, y = ev(c.args[0]), ev(c.args[1])
+            if x[0] != y[0] or x[0] not in ('mat', 'vec'):
+                raise TranslationError('axes_check: allclose of different shapes')
+            flat = (lambda v: [e for row in v[1] for e in row]) if x[0] == 'mat' else (lambda v: list(v[1]))
+            exc = st.body[0].exc
+            if not (isinstance(exc, ast.Call) and isinstance(exc.func, ast.Name)):
+                raise TranslationError('axes_check: unexpected raise')
+            tests.append((exc.func.id, 'atol' in kw, list(zip(flat(x), flat(y)))))
+            continue
+        if isinstance(st, ast.Return) and st.value is not None:
+            ret = ev(st.value)
+            if ret[0] != 'mat':
+                raise TranslationError('axes_check: does not return a matrix')
+            continue
+        raise TranslationError(f'axes_check: unsupported statement `{ast.unparse(st)[:80]}`')
+    if ret is None:
+        raise TranslationError('axes_check: no return')
+    SIG = '{K : Type} [Add K] [Sub K] [Mul K] [Div K] [NatCast K] (axes : Fin 3 → Fin 3 → K) (norms : Fin 3 → K)'
+    P = ['/- GENERATED by harness/props/c11.py from atomman/tools/axes_check.py — do not edit. -/',
+         'set_option linter.unusedVariables false', 'namespace Atomman.Gen', '',
+         '/-- `axes_check`: row-major entries of the returned array; `norms i` stands for '
+         '`np.linalg.norm(axes, axis=1)[i]`. -/',
+         f'def axesCheckU {SIG} : List K :=\n  [' + ',\n   '.join(e for row in ret[1] for e in row) + ']', '',
+         '/-- `axes_check`: the `if not np.allclose(X, Y, atol=tol): raise E` tests in program order: '
+         '`(E, atol is the tol argument, entry pairs (x, y))`. -/',
+         f'def axesCheckTests {SIG} :\n    List (String × Bool × List (K × K)) :=\n  ['
+         + ',\n   '.join(f'("{e}", {"true" if t else "false"},\n    [' + ',\n     '.join(f'({x}, {y})' for x, y in prs) + '])'
+                         for e, t, prs in tests) + ']', '',
+         '/-- default `tol` of `axes_check`. -/', f'def axesCheckTol {KCLS} : K := {lit(tol_default)}', '',
+         'end Atomman.Gen', '']
+    return '\n'.join(P)
+
+
 # ---- Lean emitters ---------------------------------------------------------------------
 
 def _tup(t):
@@ -592,7 +752,6 @@ def _voigt_tables(src, axes_src):
     sig2 = inspect.signature(numpy.allclose).parameters
     if Fraction(sig2['rtol'].default) != rtol or Fraction(sig2['atol'].default) != atol:
         raise TranslationError('numpy allclose/isclose defaults differ')
-    axes_tol = _default_of(axes_src, 'axes_check', 'tol')
     isn_atol = _default_of(src, 'is_normal', 'atol')
     isn_rtol = _default_of(src, 'is_normal', 'rtol')
 
@@ -655,7 +814,6 @@ def _voigt_tables(src, axes_src):
         if any(w <= 0 for w, _ in d['table']):
             raise TranslationError(f'{nm} setter: non-positive weight')
     P += ['/-- default `tol` of `transform`. -/', f'def transformTol {KCLS} : K := {lit(tol)}',
-          '/-- default `tol` of `axes_check`. -/', f'def axesCheckTol {KCLS} : K := {lit(axes_tol)}',
           '/-- numpy `isclose`/`allclose` defaults. -/', f'def npRtol {KCLS} : K := {lit(rtol)}',
           f'def npAtol {KCLS} : K := {lit(atol)}',
           '/-- `is_normal` defaults. -/', f'def isNormalAtol {KCLS} : K := {lit(isn_atol)}',
@@ -1173,7 +1331,7 @@ def _translate_all():
     src = cm.source(SRC)
     axes_src = cm.source(AXES_SRC)
     methods = _class_methods(src)
-    out = {'VoigtTables': _voigt_tables(src, axes_src)}
+    out = {'VoigtTables': _voigt_tables(src, axes_src), 'AxesCheck': _axes_check_gen(axes_src)}
     infos, texts, iso_infos, iso_texts = _ctor_all(methods)
     have = {','.join(i['keys']): i for i in infos + iso_infos}
     head = ['/- GENERATED by harness/props/c11.py from atomman/core/ElasticConstants.py — do not edit. -/']
@@ -1584,9 +1742,39 @@ def correspond(ctx):
             B.add('setsij:singular', 'setsij ' + cm.frs(Z), r, e, _exact, {'Sij': Z.tolist()}, nontrivial=False)
     B.run()
 
+    # ---- 3b. tools.axes_check on its own (generated model): rows of every length, tilted, left-handed; tol forms ---
+    from atomman.tools import axes_check
+    for it in range(ctx.n(60, 600)):
+        label, A = _any_length_axes(rng, it % 7)
+        what = it % 5
+        tol = [None, None, 1e-3, 1e-12, 1e-5, 0.25][rng.randrange(6)]
+        t = 1e-8 if tol is None else tol
+        if what == 3:      # tilted by 0.3 tol (accepted) / 3 tol (refused): decided away from the threshold
+            k0, k1 = rng.sample(range(3), 2)
+            fac = rng.choice([0.3, 3.0])
+            if t * fac > 1e-15:
+                A = A.copy()
+                A[k0] = A[k0] + t * fac * A[k1] * (np.linalg.norm(A[k0]) / np.linalg.norm(A[k1]))
+                label += f'+tilt {fac} tol'
+        elif what == 4:    # left-handed
+            A = A.copy()
+            if rng.random() < 0.5:
+                k_ = rng.randrange(3)
+                A[k_] = -A[k_]
+            else:
+                k_ = rng.randrange(3)
+                A[[k_, (k_ + 1) % 3]] = A[[(k_ + 1) % 3, k_]]
+            label += '+left-handed'
+        line = 'axescheck ' + cm.frs(A) + ' ' + cm.frs(np.linalg.norm(A, axis=1)) + ('' if tol is None else ' ' + cm.fr(tol))
+        how = rng.randrange(2)
+        r, e = _call(lambda: axes_check(A) if tol is None else axes_check(A, tol) if how else axes_check(A, tol=tol))
+        B.add('axescheck:' + label.split('-')[0].split('+')[0], line, r, e, _Cmp(1e-14, atol_rel=4e-16),
+              {'axes': A.tolist(), 'tol': tol, 'lengths': label})
+    B.run()
+
     # ---- 4. transform --------------------------------------------------------------------------
     sp = _signed_perms()
-    ntr = ctx.n(70, 900)
+    ntr = ctx.n(98, 900)
     for it in range(ntr):
         dy = it % 3 != 2
         C = _spd_dyadic(rng, 2) if dy else _spd_float(rng, rng.choice([1.0, 160.2176621]))
@@ -1598,9 +1786,12 @@ def correspond(ctx):
             exact = dy
         elif mode in (2, 3):
             R, _ = _quat_rot(rng)
-        elif mode == 4:    # integer axes, rows of different lengths (normalised by axes_check)
-            R0, _ = _quat_rot(rng)
-            R = R0 * np.array([[rng.choice([1.0, 2.0, 0.5, 3.0])] for _ in range(3)])
+        elif mode == 4:    # axes are directions: rows of any length, far from / a hair off 1, typed decimals
+            if (it // 7) % 4 == 0:
+                R0, _ = _quat_rot(rng)
+                R = R0 * np.array([[rng.choice([1.0, 2.0, 0.5, 3.0])] for _ in range(3)])
+            else:
+                R = _any_length_axes(rng, (it // 7) % 7)[1]
         elif mode == 5:    # left-handed / non-orthogonal
             R0, _ = _quat_rot(rng)
             R = R0.copy()
@@ -1858,7 +2049,8 @@ def _correspond_sequence(ctx, rng, it):
             return (lambda: ec.normalized_as(op[1]).Cij), ' '.join(op), ' '.join(op)
         if op[0] == 'isn':
             return (lambda: [1.0 if ec.is_normal(op[1]) else 0.0]), f'isn {op[1]} {cm.fr(1e-4)} {cm.fr(1e-4)}', ' '.join(op)
-        R = sp[rng.randrange(len(sp))] if rng.random() < 0.6 else _quat_rot(rng)[0] * rng.choice([1.0, 2.0])
+        R = sp[rng.randrange(len(sp))] if rng.random() < 0.5 else _quat_rot(rng)[0] * rng.choice([1.0, 2.0]) \
+            if rng.random() < 0.4 else _any_length_axes(rng)[1]
         return (lambda: ec.transform(R).Cij), 'tr ' + cm.frs(R) + ' ' + cm.frs(np.linalg.norm(R, axis=1)), 'tr'
 
     nops = rng.randint(4, 10)
@@ -2093,6 +2285,161 @@ def _rot_tol(mx):
     return 2.5e-8 * mx
 
 
+# ---- axes are DIRECTIONS: lengths of the axis vectors at every scale -----------------------------------------
+# (round 5: a tester skipped the normalisation in axes_check "when the rows are unit vectors already", decided with
+#  np.allclose's default rtol 1e-5: typed decimals such as 0.707107 and rotation matrices a few ppm off unit length
+#  were then used as they are.  Every generator that hands axes to transform / axes_check draws the three row lengths
+#  from this family: far from 1, a hair off 1 on one / some / all rows with independent signs, equal and unequal.)
+HAIRS = [1e-13, 1e-11, 1e-10, 1e-9, 1e-8, 1e-7, 1e-6, 2e-6, 3e-6, 4e-6, 8e-6, 9.9e-6, 1.01e-5, 2e-5, 5e-5, 1e-4, 1e-3,
+         1e-2, 0.1]
+FARS = [2.0, 0.5, 3.0, 1.0 / 3.0, 7.25, 1e3, 1e-3, 2.0 ** 20, 2.0 ** -20, 1e8, 1e-8]
+
+
+def _row_lengths(rng, kind=None):
+    """(label, [f0, f1, f2]): factors for the three rows of a rotation matrix."""
+    kind = rng.randrange(7) if kind is None else kind
+    def hair():
+        return 1.0 + rng.choice([-1.0, 1.0]) * rng.choice(HAIRS)
+    if kind == 0:
+        return 'far', [rng.choice(FARS) for _ in range(3)]
+    if kind == 1:
+        f = rng.choice(FARS)
+        return 'far-uniform', [f, f, f]
+    if kind == 2:
+        return 'hair', [hair() for _ in range(3)]
+    if kind == 3:
+        f = hair()
+        return 'hair-uniform', [f, f, f]
+    if kind == 4:
+        fs = [1.0, 1.0, 1.0]
+        fs[rng.randrange(3)] = hair()
+        return 'hair-one-row', fs
+    if kind == 5:
+        fs = [hair() for _ in range(3)]
+        fs[rng.randrange(3)] = rng.choice(FARS)
+        return 'hair+far', fs
+    h = rng.choice([1e-6, 2e-6, 4e-6, 8e-6])          # all rows within numpy's default rtol of unit length
+    return 'hair-ppm', [1.0 + rng.choice([-1.0, 1.0]) * h * rng.uniform(0.3, 1.0) for _ in range(3)]
+
+
+def _decimal_axes(rng):
+    """axes as somebody types them: a rotation about a principal axis with cos / sin rounded to k decimals (rows stay
+    exactly orthogonal, their length is not 1), the principal axis anywhere, optionally all rows times a typed factor."""
+    np = _np()
+    k = rng.choice([3, 4, 5, 6, 6, 6, 7, 8, 10, 12])
+    ang = rng.choice([math.pi / 4, math.pi / 6, math.pi / 3, rng.uniform(0.05, 3.0), math.radians(37.0)])
+    c, s = round(math.cos(ang), k), round(math.sin(ang), k)
+    M = np.array([[c, s, 0.0], [-s, c, 0.0], [0.0, 0.0, 1.0]])
+    sh = rng.randrange(3)
+    M = np.roll(np.roll(M, sh, axis=0), sh, axis=1)
+    return f'decimals-{k}', M
+
+
+def _any_length_axes(rng, kind=None):
+    """(label, axes): a proper rotation (general, or about a principal axis) with rows of drawn lengths, or typed decimals"""
+    np = _np()
+    if rng.random() < 0.25:
+        return _decimal_axes(rng)
+    base = _rand_rotation(rng) if rng.random() < 0.7 else _axis_rotations(rng, rng.randrange(3), 1, 0)[0][1]
+    label, fs = _row_lengths(rng, kind)
+    return label, np.asarray(base, dtype=float) * np.array(fs)[:, None]
+
+
+def _fsqrt(q):
+    """square root of a positive Fraction to ~1e-30 relative (integer square root)."""
+    S = 10 ** 30
+    return Fraction(math.isqrt(q.numerator * q.denominator * S * S), q.denominator * S)
+
+
+def _unit_rows_exact(R):
+    """the rows of R divided by their lengths, in exact arithmetic (independent of numpy / axes_check)."""
+    out = []
+    for row in R:
+        fr = [Fraction(float(x)) for x in row]
+        n = _fsqrt(sum(x * x for x in fr))
+        out.append([x / n for x in fr])
+    return out
+
+
+_VP = ((0, 0), (1, 1), (2, 2), (1, 2), (0, 2), (0, 1))
+
+
+@_clause('axislengths')
+def _check_axis_lengths(ctx, ec, R, label, eps, info, tag):
+    """rotation = tensor rotation by the NORMALISED axes, whatever the lengths of the axis vectors handed in: the
+    rotated tensor against T T T T C with T = rows / |rows| in exact arithmetic (entries the clean-ups cannot touch:
+    to 1e-11 of the largest), strain energy of the strain co-rotated by T, Voigt bulk modulus, and axes_check itself."""
+    np = _np()
+    from atomman.tools import axes_check
+    c = ec.Cij
+    mx = float(np.abs(c).max())
+    rep = {**info, 'axes': np.asarray(R).tolist(), 'op': 'axislengths', 'strain': eps, 'lengths': label}
+    ctx.stats.case('oracle:axis-lengths', (tag, label, cm.frs(c), cm.frs(R)), sample=rep if tag.endswith(':0') else None)
+    TF = _unit_rows_exact(R)
+    u, e = _call(lambda: axes_check(np.array(R, dtype=float)))
+    if e is not None:
+        ctx.violate('axes_check:refused', f'{tag}: axes_check refused orthogonal right-handed axes with row lengths '
+                    f'[{label}] {np.linalg.norm(R, axis=1).tolist()}: {e}', rep)
+    elif max(abs(float(TF[i][j]) - u[i, j]) for i in range(3) for j in range(3)) > 4e-16:
+        d = max(abs(float(TF[i][j]) - u[i, j]) for i in range(3) for j in range(3))
+        ctx.violate('axes_check:value', f'{tag}: axes_check does not return the unit vectors of rows of lengths [{label}] '
+                    f'{np.linalg.norm(R, axis=1).tolist()} (off by {d:.2e})', rep)
+    got, e = _call(lambda: ec.transform(np.array(R, dtype=float)))
+    if e is not None:
+        ctx.violate('transform:raises', f'{tag}: transform raised for axes with row lengths [{label}]: {e}', rep)
+        return
+    want = _rot4(TF, _F(ec.Cijkl))
+    g4 = got.Cijkl.ravel()
+    wmx = max(abs(float(w)) for w in want)
+    d = max((abs(float(w) - g) for w, g in zip(want, g4) if abs(float(w)) >= 1e-6 * wmx), default=0.0)
+    dall = max(abs(float(w) - g) for w, g in zip(want, g4))
+    if d > 1e-11 * wmx or dall > _rot_tol(wmx) + 1e-11 * wmx:
+        ctx.violate('transform:axis-lengths', f'{tag}: transform(axes) with row lengths [{label}] '
+                    f'{np.linalg.norm(R, axis=1).tolist()} differs from the rotation by the unit vectors of the rows by '
+                    f'{max(d, dall) / wmx:.2e} of the largest entry', rep)
+    E = [[Fraction(x) for x in row] for row in eps]
+    E2 = [[sum(TF[i][a] * E[a][b] * TF[j][b] for a in range(3) for b in range(3)) for j in range(3)] for i in range(3)]
+    w0, w1 = _energy(_F(ec.Cijkl), E), _energy(_F(got.Cijkl), E2)
+    n2 = float(sum(x * x for r in E for x in r))
+    nz = int((got.Cij == 0.0).sum())
+    if abs(float(w1 - w0)) > 81 * 1e-8 * mx * n2 * (nz > 0) + 1e-10 * mx * n2:
+        ctx.violate('transform:energy', f'{tag}: axes with row lengths [{label}]: strain energy {float(w0)!r} becomes '
+                    f'{float(w1)!r} for the co-rotated strain', rep)
+    kv = lambda m: (m[0, 0] + m[1, 1] + m[2, 2] + 2 * (m[0, 1] + m[0, 2] + m[1, 2])) / 9
+    if abs(kv(got.Cij) - kv(c)) > 1e-8 * mx * (nz > 0) + 1e-11 * mx or abs(got.bulk('Voigt') - ec.bulk('Voigt')) > \
+            1e-8 * mx * (nz > 0) + 1e-11 * mx:
+        ctx.violate('moduli:bulk:Voigt', f'{tag}: axes with row lengths [{label}]: Voigt bulk modulus {ec.bulk("Voigt")!r} '
+                    f'becomes {got.bulk("Voigt")!r}', rep)
+
+
+def _search_axis_lengths(ctx, rng, big):
+    """every kind of row-length pattern x general / principal-axis / typed-decimal axes x dense and structured tensors"""
+    np = _np()
+    import atomman as am
+    EC = am.ElasticConstants
+    n = ctx.n(140, 1200) * big
+    for it in range(n):
+        if it % 3 == 0:
+            C = _spd_float(rng, rng.choice([1.0, 160.2176621, 2.0 ** -33, 2.0 ** 37]))
+        elif it % 3 == 1:
+            C = _spd_dyadic(rng, 3) * 2.0 ** rng.choice([0, 0, -20, 20])
+        else:
+            C = _struct_matrix(rng, rng.choice(STRUCT_KINDS), dy=False)[0]
+        ec, e = _call(lambda: EC(Cij=np.array(C, dtype=float)))
+        if e is not None:
+            continue
+        if it % 4 == 3:
+            label, R = _decimal_axes(rng)
+            if rng.random() < 0.3:
+                lab2, fs = _row_lengths(rng)
+                label, R = label + '*' + lab2, R * np.array(fs)[:, None]
+        else:
+            base = _rand_rotation(rng) if it % 4 else _axis_rotations(rng, rng.randrange(3), 1, 1)[rng.randrange(2)][1]
+            label, fs = _row_lengths(rng, it % 7)
+            R = np.asarray(base, dtype=float) * np.array(fs)[:, None]
+        _check_axis_lengths(ctx, ec, R, label, _rand_strain(rng), {'Cij': ec.Cij.tolist()}, f'axis-lengths:{it}')
+
+
 @_clause('rotation')
 def _check_rotation_clauses(ctx, ec, R, R2, eps, info, tag):
     if ec is None:
@@ -2119,11 +2466,16 @@ def _check_rotation_clauses(ctx, ec, R, R2, eps, info, tag):
     if not np.array_equal(ec.Cij, c):
         ctx.violate('transform:mutates', f'{tag}: transform changes the object it is called on', rep)
     # axes are directions: positive rescaling of the rows must not matter
-    scal = np.array([[2.0], [0.5], [3.0]])
-    rs, es = _call(lambda: ec.transform(R * scal).Cij)
-    if es is not None or not np.allclose(rs, e1.Cij, rtol=1e-9, atol=_rot_tol(mx)):
-        ctx.violate('transform:axes-scaling', f'{tag}: transform with rescaled axis vectors differs from transform '
-                    f'with the unit axes ({es or np.abs(rs - e1.Cij).max()})', rep)
+    # (far from unit length, and - drawn from the axes themselves, so that a replay sees the same - a hair off it)
+    prng = random.Random(cm.frs(R))
+    for lab, fs in (('fixed', [2.0, 0.5, 3.0]), _row_lengths(prng, 2 + prng.randrange(4)), _row_lengths(prng, 6)):
+        scal = np.array(fs)[:, None]
+        rs, es = _call(lambda: ec.transform(R * scal).Cij)
+        keep = np.abs(e1.Cij) >= 1e-6 * mx
+        if es is not None or not np.allclose(rs, e1.Cij, rtol=1e-9, atol=_rot_tol(mx)) \
+                or not np.allclose(rs[keep], e1.Cij[keep], rtol=0, atol=1e-11 * mx):
+            ctx.violate('transform:axes-scaling', f'{tag}: transform with the axis vectors rescaled by {fs} [{lab}] differs '
+                        f'from transform with the unit axes ({es or np.abs(rs - e1.Cij).max()})', rep)
     if not np.allclose(back.Cij, c, rtol=1e-9, atol=2 * _rot_tol(mx)):
         ctx.violate('transform:inverse', f'{tag}: transform(R) then transform(R^T) does not return the original '
                     f'(max diff {np.abs(back.Cij - c).max():.3e})', rep)
@@ -3122,6 +3474,7 @@ def search(ctx, broken):
     _search_audit(ctx, rng, big)
     _search_structured(ctx, rng, big)
     _search_near_ties(ctx, ctx.seed)
+    _search_axis_lengths(ctx, random.Random(ctx.seed * 104729 + 5), big)
 
 
 def _search_scales(ctx, rng, big):
@@ -4390,6 +4743,9 @@ def replay(ctx, payload):
             ec = am.ElasticConstants(Cij=np.array(r['Cij'])) if 'Cij' in r else am.ElasticConstants(**r['kwargs'])
             _check_rotation_clauses(ctx, ec, np.array(r['axes']), np.array(r['axes2']),
                                     r.get('strain', [[0, .5, 0], [.5, 0, 0], [0, 0, 1.0]]), {}, 'replay')
+        elif op == 'axislengths':
+            _check_axis_lengths(ctx, am.ElasticConstants(Cij=np.array(r['Cij'])), np.array(r['axes']), r.get('lengths', '?'),
+                                r.get('strain', [[0, .5, 0], [.5, 0, 0], [0, 0, 1.0]]), {'Cij': r['Cij']}, 'replay')
         elif op == 'system' and 'axes' in r:
             ec = am.ElasticConstants(**r['kwargs'])
             out = ec.transform(np.array(r['axes'])).Cij
